@@ -1,4 +1,7 @@
 import McpModel.Wire.Ref
+import McpModel.Wire.Clone
+import McpModel.Wire.Ann
+import McpModel.Wire.Retry
 import McpModel.Wire.Sse
 import McpModel.Wire.Result
 import McpModel.Wire.Input
@@ -232,6 +235,8 @@ inductive Clause where
   | dtWrite | badFrame | writtenDiffers
   | cwCrash (c : Crash) | cwGarbled (n : Nat) | cwLost (m : Msg)
   | logDiffers (passed logged : Nat)
+  | retryResponsesAltered | retryStateAltered | retryNotDecodedAlike
+  | toolAnnHintLost | toolAnnChanged | cloneAliased | cloneDiffers | extNotStored
   | refRefused | refChanged | refInconsistentWritten | refInconsistentAccepted | refReencDiffers
   | dtNdReader (c : Crash) | ndNotValueByValue
   | writePanic02 | flushedEarly | notOnItsOwn | arrayNotExact | withheld (hasNotif : Bool) | lastOnItsOwn
@@ -883,6 +888,93 @@ def logMonitor (passed : List Passed) (o : LogObs) : Option Clause :=
   match o with
   | .other => some .badObservation
   | .entries l => if entriesAre passed l then none else some (.logDiffers passed.length l.length)
+
+/-! ## what a retried request carries (multi round trip) -/
+
+/-- `mrtr.retry`: the two members of the params the client sends again, and what the server's decoder made of them -/
+structure RetryObs where
+  sentResp : Option JVal
+  sentState : Option JVal
+  back : Option (List (Bytes × RespKind) × Bytes)
+deriving Repr, Inhabited
+
+def kindD (v : JVal) : RespKind := match respKindOf v with | .ok k => k | .error _ => .roots
+
+def allDiscriminated (rs : List (Bytes × JVal)) : Bool := rs.all (fun p => match respKindOf p.2 with | .ok _ => true | .error _ => false)
+
+def respIntact (rs : List (Bytes × JVal)) (o : RetryObs) : Bool :=
+  match o.sentResp with
+  | none => rs.isEmpty
+  | some v => !rs.isEmpty && sameJ v (.obj rs)
+
+def stateIntact (state : Bytes) (o : RetryObs) : Bool :=
+  match o.sentState with
+  | none => state.isEmpty
+  | some v => !state.isEmpty && v == .str state
+
+def backAlike (rs : List (Bytes × JVal)) (state : Bytes) (o : RetryObs) : Bool :=
+  !allDiscriminated rs ||
+  (match o.back with
+    | none => false
+    | some (ks, s) => s == state && ks.length == rs.length && rs.all (fun p => ks.contains (p.1, kindD p.2)))
+
+def retryMonitor (rs : List (Bytes × JVal)) (state : Bytes) (o : RetryObs) : Option Clause :=
+  if !respIntact rs o then some .retryResponsesAltered
+  else if !stateIntact state o then some .retryStateAltered
+  else if !backAlike rs state o then some .retryNotDecodedAlike
+  else none
+
+/-! ## `ToolAnnotations` -/
+
+/-- `ann.rt`: what `json.Marshal` wrote for the annotations, and what `json.Unmarshal` made of it -/
+structure AnnObs where
+  written : Option JVal
+  back : Option ToolAnn
+deriving Repr, Inhabited
+
+def hintsPresent : Option JVal → Bool
+  | some (.obj kvs) =>
+    (match lookup ToolAnnotations_ReadOnlyHint_name kvs with | some (.bool _) => true | _ => false) &&
+    (match lookup ToolAnnotations_IdempotentHint_name kvs with | some (.bool _) => true | _ => false)
+  | _ => false
+
+def annMonitor (compat : Bool) (a : ToolAnn) (o : AnnObs) : Option Clause :=
+  if !compat && !hintsPresent o.written then some .toolAnnHintLost
+  else if o.back ≠ some a then some .toolAnnChanged
+  else none
+
+/-! ## capabilities clones -/
+
+/-- `caps.clone`: does the clone encode like the original; in how many cells a write through one showed in the other;
+did `AddExtension` on the clone store the (empty, non-nil) settings without touching the original -/
+structure CloneObs where
+  same : Bool
+  aliased : Nat
+  ext : Option Bool       -- `none`: the original changed (aliased); `some false`: not stored
+deriving Repr, Inhabited
+
+def cloneMonitor (o : CloneObs) : Option Clause :=
+  if !o.same then some .cloneDiffers
+  else if o.aliased ≠ 0 || o.ext = none then some .cloneAliased
+  else if o.ext = some false then some .extNotStored
+  else none
+
+/-- the writes the harness tries, on the model: through every cell of the clone (is the original's encoding
+changed?) and through every cell of the original (is the clone's?) -/
+def showsInOriginal (v : CSlots) (h : Heap) (x : JVal) : Option Nat → Bool
+  | some a => encSlots v (writeCell (cloneV v h).2 a x) != encSlots v h
+  | none => false
+
+def showsInClone (v : CSlots) (h : Heap) (x : JVal) : Option Nat → Bool
+  | some a => encSlots (cloneV v h).1 (writeCell (cloneV v h).2 a x) != encSlots (cloneV v h).1 (cloneV v h).2
+  | none => false
+
+def aliasCount (v : CSlots) (h : Heap) (x : JVal) : Nat :=
+  ((cloneV v h).1.filter (showsInOriginal v h x)).length + (v.filter (showsInClone v h x)).length
+
+/-- what `caps.clone` observes of the model -/
+def modelClone (v : CSlots) (h : Heap) (x : JVal) : CloneObs :=
+  { same := encSlots (cloneV v h).1 (cloneV v h).2 == encSlots v h, aliased := aliasCount v h x, ext := some true }
 
 /-! ## the `CompleteReference` codec -/
 
